@@ -171,6 +171,11 @@ def digest_main(prop: str, base_seed: int, tier: str, indices: List[int]) -> int
 
 
 def main(argv=None) -> int:
+    argv = list(sys.argv[1:] if argv is None else argv)
+    if argv and argv[0] == "selftest":
+        import_tool_or_die()
+        from sim import selftest
+        return selftest.main(argv[1:])
     ap = argparse.ArgumentParser(prog="check")
     ap.add_argument("prop")
     ap.add_argument("--tier", default=os.environ.get("VERIF_TIER", "quick"), choices=["quick", "thorough"])
